@@ -40,3 +40,20 @@ Theorem C12_tolerates_any_labels :
   forall i, (0 <=? i_cur i) && (i_cur i <? zlen (i_batches i)) = true -> patch_pod_batch_label i <> Panic.
 Proof. exact patch_total. Qed.
 Print Assumptions C12_tolerates_any_labels.
+
+(* ... and such a pod is of the new revision: pods of another revision that carry this release's labels use no budget *)
+Theorem C12_counted_pods_are_new_revision :
+  forall i k p, is_counted i k p = true ->
+  exists crh, consistent (p_pth p) crh (i_rev i) = true /\ (crh = p_crh p \/ p_owner p = RSHash crh).
+Proof. exact counted_is_new_revision. Qed.
+Print Assumptions C12_counted_pods_are_new_revision.
+
+(* the budget is used: unless every unlabelled live pod of the new revision received a label (they ran out), batch k+1
+   receives exactly its increment minus the pods that belong to it already *)
+Theorem C12_budget_filled :
+  forall i ws, patch_pod_batch_label i = Ok ws -> ws <> [] ->
+  count is_batch_write ws = count (fun p => match classify i p with PUnpatched _ => true | _ => false end) (pods_used i) \/
+  forall k, (k < List.length (incs i))%nat ->
+    count (has_bid (Z.of_nat k + 1)) ws = Z.max 0 (nth k (incs i) 0 - count (is_counted i (Z.of_nat k + 1)) (pods_used i)).
+Proof. exact budget_filled. Qed.
+Print Assumptions C12_budget_filled.
